@@ -24,11 +24,24 @@ def vs(n):
     return "v%d" % n
 
 
+class Opts(int):
+    """option bits of the container (an int, so `opt & 2` keeps working) + the element limit `max`
+    of list/queue/stack (0 = unlimited)"""
+    max = 0
+
+
+def mk_opts(bits, mx=0):
+    o = Opts(bits)
+    o.max = mx
+    return o
+
+
 class Model:
     """ideal container; apply(op) -> expected result string"""
 
     def __init__(self, kind, init, opt=0):
         self.kind, self.opt = kind, opt
+        self.max = getattr(opt, "max", 0)
         if kind == "vector":
             self.s = [100 + i for i in range(init)]
         elif kind in ("list", "queue", "stack"):
@@ -42,7 +55,7 @@ class Model:
 
     def copy(self):
         m = Model.__new__(Model)
-        m.kind, m.opt = self.kind, self.opt
+        m.kind, m.opt, m.max = self.kind, self.opt, self.max
         m.s = dict(self.s) if isinstance(self.s, dict) else list(self.s)
         return m
 
@@ -96,6 +109,12 @@ class Model:
                 f = "addfirst"
             elif f == "pop":
                 f = "popfirst"
+            if f in ("addlast", "addfirst", "addat") and self.max > 0 and n >= self.max:
+                return "0"                      # ENOBUFS: the list is full, contents unchanged
+            if f == "setsize":
+                old = self.max
+                self.max = a
+                return str(old)
             if f == "addlast":
                 s.append(vs(a)); return "1"
             if f == "addfirst":
@@ -190,7 +209,8 @@ def parse_prog(line):
                 p = tok.split(":")
                 ops.append((p[0], int(p[1]) if len(p) > 1 else 0, int(p[2]) if len(p) > 2 else 0))
             progs.append(ops)
-    return kind, int(d.get("init", 0)), int(d.get("opt", 0)), progs
+    ob = d.get("opt", "0")
+    return kind, int(d.get("init", 0)), mk_opts(2 if ob == "unique" else int(ob), int(d.get("max", 0))), progs
 
 
 def linearizable(kind, init, opt, progs, opres, final):
@@ -271,6 +291,25 @@ FIXED = [
     "hashtbl init=2 range=1 t0=remove:0 t1=remove:0,get:1",
     "listtbl init=2 t0=remove:0 t1=remove:0,get:1",
     "treetbl init=3 t0=remove:0 t1=remove:0,get:1",
+    # check-then-act candidates: size limit (ENOBUFS), unique put = remove + insert, replace of an existing key,
+    # growth of a full vector
+    "queue init=0 max=1 t0=push:1 t1=push:2 t2=push:3",
+    "queue init=1 max=2 t0=push:5 t1=push:6,pop",
+    "queue init=1 max=1 t0=push:5 t1=pop,push:6",
+    "stack init=0 max=1 t0=push:1,pop t1=push:2",
+    "stack init=1 max=2 t0=push:5 t1=push:6 t2=pop",
+    "list init=1 max=2 t0=addlast:1 t1=addlast:2",
+    "list init=1 max=2 t0=addfirst:1 t1=addat:1:2,popfirst",
+    "list init=2 max=2 t0=addlast:1 t1=popfirst,addlast:2",
+    "list init=1 max=1 t0=setsize:2,addlast:1 t1=addlast:2",
+    "listtbl opt=unique init=1 t0=put:0:9 t1=put:0:8,get:0",
+    "listtbl opt=unique init=1 t0=put:0:9 t1=put:0:8 t2=put:0:7",
+    "listtbl opt=unique init=2 t0=put:1:9,get:1 t1=remove:1,put:1:8",
+    "hashtbl init=1 range=1 t0=put:0:9 t1=put:0:8,get:0",
+    "treetbl init=1 t0=put:0:9 t1=put:0:8,get:0",
+    "treetbl init=2 t0=put:1:9,remove:1 t1=put:1:8,get:1",
+    "vector init=0 t0=addlast:1 t1=addlast:2 t2=addlast:3",
+    "vector init=1 t0=addfirst:1,poplast t1=addlast:2",
     "queue init=0 t0=push:1,pop t1=push:2,pop",
     "queue init=1 t0=pop t1=pop t2=push:3",
     "stack init=0 t0=push:1,pop t1=push:2,pop",
@@ -316,6 +355,8 @@ def random_program(rng):
         k = 1 if nt == 3 else rng.choice([1, 2, 2, 3] if t == 0 else [1, 1, 2])
         parts.append("t%d=%s" % (t, ",".join(mk() for _ in range(k))))
     extra = ""
+    if kind in ("list", "queue", "stack") and rng.random() < 0.4:
+        extra = " max=%d" % rng.choice([max(1, init), init + 1, init + 2])
     if kind == "hashtbl":
         extra = " range=%d" % rng.choice([1, 3])
     if kind == "listtbl":
